@@ -53,7 +53,7 @@ def convertNumeric (v : Num) (t : NT) : Res Num :=
 
 /-- the property text for structured arguments: built element-wise from exact numeric conversions; a number
     given for a Go `string` parameter arrives as its JavaScript ToString; an array hole is `undefined` -/
-def leaf : Leaf := { num := convertNumeric, numStr := jsNumToString, holeIsUndefined := true, ptrAnyPanics := false }
+def leaf : Leaf := { num := convertNumeric, numStr := jsNumToString, holeIsUndefined := true, exportStrict := false, ptrAnyPanics := false }
 
 def convertCallParameter (v : JV) (t : GT) : Res GV := conv leaf v t
 
